@@ -250,6 +250,43 @@ func (e *Engine) detFunction(fn *ssa.Function, em map[*ssa.Function]string) []*O
 			out = append(out, o)
 		}
 	}
+	// comparators of sort.Slice / sort.SliceStable: a comparator that orders by a derived key only (a line number, a
+	// field, a map lookup) leaves elements with equal keys in whatever order the (unstable, or map-fed) input had; it is
+	// accepted when some comparison in it is between the slice's elements themselves (x[i] < x[j]: the tie-break)
+	ccnt := map[string]int{}
+	for _, b := range fn.Blocks {
+		for _, in := range b.Instrs {
+			call, ok := in.(*ssa.Call)
+			if !ok {
+				continue
+			}
+			sc := call.Call.StaticCallee()
+			if sc == nil || (sc.String() != "sort.Slice" && sc.String() != "sort.SliceStable") || len(call.Call.Args) < 2 {
+				continue
+			}
+			mc, ok := call.Call.Args[1].(*ssa.MakeClosure)
+			if !ok {
+				continue
+			}
+			less := mc.Fn.(*ssa.Function)
+			base := fmt.Sprintf("%s#det:comparator-breaks-ties:%s", e.shortName(fn), e.shortName(less))
+			ccnt[base]++
+			name := base
+			if ccnt[base] > 1 {
+				name = fmt.Sprintf("%s~%d", base, ccnt[base])
+			}
+			o := &Obligation{Name: name, Class: "det", Func: e.shortName(fn), Solver: "govc-typestate"}
+			if p := e.prog.Fset.Position(call.Pos()); p.IsValid() {
+				o.Pos = fmt.Sprintf("%s:%d", strings.TrimPrefix(p.Filename, e.repo+"/"), p.Line)
+			}
+			if comparesElements(less) {
+				o.Status, o.Detail = "proved", "the comparator compares the elements themselves (directly or as a tie-break)"
+			} else {
+				o.Status, o.Detail = "failed", "the comparator orders by a derived key only: elements with equal keys keep the order of the input, which sort.Slice does not preserve"
+			}
+			out = append(out, o)
+		}
+	}
 	type loopRec struct {
 		h    int
 		next *ssa.Next
@@ -633,4 +670,61 @@ func sameAddr(a, b ssa.Value) bool {
 func (e *Engine) unsortedUsesOutside(fn *ssa.Function, root ssa.Value) []string {
 	li := &loopInfo{body: map[int]map[int]bool{-1: {}}}
 	return e.unsortedUses(fn, li, -1, root, map[ssa.Value]bool{})
+}
+
+// comparesElements: does the comparator closure contain an ordering comparison whose two operands are elements of the
+// same captured slice loaded at the two index parameters (x[i] OP x[j], possibly through a conversion)?
+func comparesElements(less *ssa.Function) bool {
+	if len(less.Params) != 2 {
+		return false
+	}
+	elemOf := func(v ssa.Value) (ssa.Value, ssa.Value) { // (slice root, index) of a loaded element
+		for {
+			switch x := v.(type) {
+			case *ssa.ChangeType:
+				v = x.X
+				continue
+			case *ssa.Convert:
+				v = x.X
+				continue
+			}
+			break
+		}
+		u, ok := v.(*ssa.UnOp)
+		if !ok || u.Op != token.MUL {
+			return nil, nil
+		}
+		ia, ok := u.X.(*ssa.IndexAddr)
+		if !ok {
+			return nil, nil
+		}
+		root := ia.X
+		if l, ok := root.(*ssa.UnOp); ok && l.Op == token.MUL {
+			root = l.X // load of the captured slice variable
+		}
+		return root, ia.Index
+	}
+	for _, b := range less.Blocks {
+		for _, in := range b.Instrs {
+			bo, ok := in.(*ssa.BinOp)
+			if !ok {
+				continue
+			}
+			switch bo.Op {
+			case token.LSS, token.GTR, token.LEQ, token.GEQ:
+			default:
+				continue
+			}
+			r1, i1 := elemOf(bo.X)
+			r2, i2 := elemOf(bo.Y)
+			if r1 == nil || r2 == nil || r1 != r2 {
+				continue
+			}
+			p0, p1 := ssa.Value(less.Params[0]), ssa.Value(less.Params[1])
+			if (i1 == p0 && i2 == p1) || (i1 == p1 && i2 == p0) {
+				return true
+			}
+		}
+	}
+	return false
 }
